@@ -101,6 +101,10 @@ def to_ndarr(interp, v, dtype=None):
         out.dtype = _join_kind(kinds)
     elif type(v) is Sym or isinstance(v, (int, float, bool, np.number)):
         out = NDArr(v, (), _elem_kind(v))
+    elif type(v).__name__ == "_Coords":
+        from . import shapely_model
+
+        out = shapely_model.coords_to_array(interp, v)
     else:
         raise Unsupported("np.array of %r" % type(v))
     if dtype is not None:
